@@ -51,11 +51,11 @@ func LoadContracts(pkgs []string) (*Contracts, error) {
 }
 
 type Session struct {
-	P  *Program
-	CS *Contracts
-	W  *World
-	R  *Runner
-	tmp string
+	P        *Program
+	CS       *Contracts
+	W        *World
+	R        *Runner
+	tmp      string
 	LoadSecs float64
 }
 
